@@ -250,6 +250,16 @@ ExpectedRebuild(g) ==
                         (CHOOSE y \in E : y.ni = n /\ y.kind = kd /\ y.key = k).e]
   IN [n \in N |-> [nh |-> tab(n, "nh"), nhg |-> tab(n, "nhg"), top |-> tab(n, "top")]]
 
+\* the entries of a scope in an arbitrary RIB value (used with the fold of the acknowledged operations)
+GetEntriesIn(R, g) ==
+  LET N == IF g.ni = "*" THEN DOMAIN R ELSE {g.ni} \cap DOMAIN R IN
+  UNION {
+     {[ni |-> n, kind |-> "nh", key |-> k, e |-> R[n].nh[k]] : k \in IF "nh" \in GetKinds(g) THEN DOMAIN R[n].nh ELSE {}}
+     \cup {[ni |-> n, kind |-> "nhg", key |-> k, e |-> R[n].nhg[k]] : k \in IF "nhg" \in GetKinds(g) THEN DOMAIN R[n].nhg ELSE {}}
+     \cup {[ni |-> n, kind |-> "top", key |-> k, e |-> R[n].top[k]] :
+              k \in {t \in DOMAIN R[n].top : R[n].top[t].kd \in GetKinds(g)}}
+     : n \in N}
+
 TSGet ==
   /\ ~dead /\ IsEvent("get")
   /\ LET ok == GetOK(Ev.g)
@@ -265,6 +275,8 @@ TSGet ==
                  \cup Flag("bad" \in DOMAIN Ev, "getBadEntry")
                  \cup Flag(ok /\ Len(Ev.entries) # Cardinality(got), "getDuplicate")
                  \cup Flag(ok /\ gotQ # GetEntries(Ev.g), "getEntries")
+                 \* faithful to the RIB, but the RIB is not what was last programmed (fold of the acknowledged operations)
+                 \cup Flag(ok /\ ~pflush /\ gotQ = GetEntries(Ev.g) /\ gotQ # GetEntriesIn(ref, Ev.g), "getNotLastProgrammed")
                  \cup Flag(ok /\ gotQ = GetEntries(Ev.g) /\ got # gotQ, "KF:getBoolLeafDropped")
                  \cup Flag(ok /\ Ev.end.code = "OK" /\ ~rebOK(Ev.rebuildq), "getRebuild")
                  \cup Flag(ok /\ Ev.end.code = "OK" /\ rebOK(Ev.rebuildq) /\ ~rebOK(Ev.rebuild), "KF:getBoolLeafDropped"))
